@@ -99,6 +99,7 @@ func properties() []Property {
 				{Name: "H_C13_counts", Profile: "bit", Quick: b("entries", 2, "srcs", 2, "doms", 2), Thorough: b("entries", 3, "srcs", 1, "doms", 1), Covers: []string{"ledger-built", "direct-lookup-hit", "direct-lookup-miss"}, TimeoutQuick: 300},
 				{Name: "H_C13_index_keys", Profile: "arith", Covers: []string{"stored"}},
 				{Name: "H_C13_paging", Profile: "bit", Quick: b("entries", 4, "limits", 3), Thorough: b("entries", 6, "limits", 7), Covers: []string{"ledger-built", "offset-page", "walk-finished"}},
+				{Name: "H_C13_prefix_keys", Profile: "bit", Covers: []string{"reverse-walk", "forward-walk"}},
 			}},
 		{ID: "C14", Assumptions: []string{aSummaries, aModels, "decoded payload shapes are built as Go values through the exported API (every pointer position nil or not, identifiers any int32, byte fields of any length up to the bound, integers and coins of any value; nil math.Int excluded because the Any round trip never yields one) and fed to the stages in the order the receive path calls them: Payload.Validate, the transfer hook, payload processing, and the dispatcher directly", "every instruction that can panic (nil dereference, index / slice bounds, slice-to-array conversion, division by zero, failed type assertion, nil map write, explicit panic) and every documented panic of a summarised library function (math.Int overflow, nil Int receiver, sdk.NewCoin / NewCoins on invalid input) is an obligation on every path", "panics inside the JSON / protobuf codecs and inside bech32 are outside the claim (summarised): e.g. \"fees_info\":[null] panics inside jsonpb before any orbiter code runs"},
 			Harnesses: []HarnessSpec{
@@ -129,6 +130,7 @@ func properties() []Property {
 				{Name: "H_C17_dispatcher", Profile: "bit", Quick: b("entries", 1, "strlen", 1, "denomlen", 3), Thorough: b("entries", 1, "strlen", 2, "denomlen", 4), TimeoutQuick: 300, Covers: []string{"genesis-rejected", "genesis-accepted", "genesis-initialised"}},
 				{Name: "H_C17_boundary", Profile: "bit", Covers: []string{"genesis-rejected", "genesis-accepted"}},
 				{Name: "H_C17_many", Profile: "bit", Covers: []string{"exported"}},
+				{Name: "H_C17_denoms", Profile: "bit", Covers: []string{"exported"}},
 			}},
 		{ID: "C18", Assumptions: []string{aSummaries, aModels, aE1, "the passthrough payload is an all-zero byte slice whose LENGTH is symbolic in [0, maxlen] (the hook reads only len)"},
 			Harnesses: []HarnessSpec{
